@@ -1,21 +1,22 @@
 #!/bin/bash
 # usage: tools/seeded_regress.sh [name ...]   -- every stored seeded change (seeded/Cxx-y) applied in turn: its demonstration must pass
+R=${VERIF_REPO:-/repo}
 # on the unchanged tree and fail with the change, and the checks named in its meta.json must report a VIOLATION with a failing input.
 cd "$(dirname "$0")/.."
 LIST=${@:-$(ls seeded | grep '^C')}
-git -C /repo diff --quiet || { echo "/repo is dirty"; exit 2; }
+git -C $R diff --quiet || { echo "$R is dirty"; exit 2; }
 rm -rf build/evidence.keep; cp -r evidence build/evidence.keep
 for N in $LIST; do
   CHECKS=$(python3 -c "import json;print(' '.join(json.load(open('seeded/$N/meta.json')).get('confirmed_by_me',{}).get('checks',['${N%%-*}'])))")
-  PYTHONPATH=/repo/src PYTHONHASHSEED=0 /venv/bin/python seeded/$N/demo.py > /dev/null 2>&1; D0=$?
-  git -C /repo apply $PWD/seeded/$N/patch.diff || { echo "$N: patch does not apply"; continue; }
-  PYTHONPATH=/repo/src PYTHONHASHSEED=0 /venv/bin/python seeded/$N/demo.py > /dev/null 2>&1; D1=$?
+  PYTHONPATH=$R/src PYTHONHASHSEED=0 /venv/bin/python seeded/$N/demo.py > /dev/null 2>&1; D0=$?
+  git -C $R apply $PWD/seeded/$N/patch.diff || { echo "$N: patch does not apply"; continue; }
+  PYTHONPATH=$R/src PYTHONHASHSEED=0 /venv/bin/python seeded/$N/demo.py > /dev/null 2>&1; D1=$?
   OUT=""
   for P in $CHECKS; do
     L=$(./check $P --tier quick 2>&1 | grep '^VIOLATION' | head -1 | cut -c1-90)
     OUT="$OUT [$P: ${L:-QUIET}]"
   done
-  git -C /repo checkout -- .
+  git -C $R checkout -- .
   echo "$N demo $D0/$D1$OUT"
 done
 cp build/evidence.keep/*.json evidence/
